@@ -56,7 +56,8 @@ def run(ctx):
     ]
     ctx.assumptions = ["the real loops terminate iff an eligible day exists; the model bounds each search by 7*(holidays+1) days and reports exhaustion as abort",
                        "week masks leave a common working weekday (as the property states)"]
-    translate.generate(REPO, os.path.join(COQ, "theories", "Gen"))
+    if translate_stage(ctx) is None:
+        return ctx.finish("make theories/Props/C04.vo")
     if not proof_stage(ctx, ["theories/Run/RunCal.vo"]):
         ctx.violation("a C04 proof obligation or the model no longer compiles", {"no_failing_input": True, "theorem": "Props/C04.v / Run/RunCal.v", "log_tail": getattr(ctx, "build_log", "")[-3000:]})
         return ctx.finish("make theories/Props/C04.vo")
